@@ -195,7 +195,10 @@ def run_copies(ctx, out):
             case["srcs"] = case["srcs"][:1]
         srcargs, destarg = build(case, d)
         notd = "-T" in case["flags"]
-        argv = [ctx.bins["xcp"], "-r", "--driver", case["driver"], "-w", str(case["workers"])] + case["flags"]
+        nflags, nw, ncpus = xcp.neutral(rng)
+        argv = [ctx.bins["xcp"], "-r", "--driver", case["driver"], "-w", nw or str(case["workers"])] + nflags + case["flags"]
+        out.count("workers_auto(-w 0)" if nw else "workers_explicit")
+        out.count("one_usable_cpu" if ncpus else "all_cpus")
         if case["glob"] and all(utf8_ok(s) for s in srcargs):
             argv.append("--glob")
             # a pattern that selects exactly the same source: bracket the first character
@@ -235,12 +238,12 @@ def run_copies(ctx, out):
                 if kk == "link" and os.path.lexists(tp):
                     valid = False     # symlink() onto an existing entry fails by design
             before = xcp.snapshot(os.fsencode(d))
-            r = xcp.run_plain(argv, d, timeout=120)
+            r = xcp.run_plain(argv, d, timeout=120, cpus=ncpus)
             after = xcp.snapshot(os.fsencode(d))
         finally:
             os.chdir("/")
         rep = dict(kind="copy", srcs=[(repr(nm), trees.describe(sp)) for nm, sp in case["srcs"]], dest_state=case["dest_state"],
-                   argv=argv, exit=r.exit, stderr=r.stderr[-400:])
+                   argv=argv, exit=r.exit, stderr=r.stderr[-400:], usable_cpus=(sorted(ncpus) if ncpus else "all"))
         nent = sum(1 for _ in exp)
         out.case(("copy", k, case["driver"], case["dest_state"], case["spelling"], tuple(case["flags"]), nent),
                  nontrivial=nent >= 3)
@@ -284,7 +287,8 @@ def run(ctx, out):
                 "spaces/UTF-8/non-UTF-8/newlines, relative/absolute/dangling links, special files), with and without "
                 "--dereference/--no-clobber/-T: operation list, Size list, result, directories; (b) real xcp runs: 1-3 sources, "
                 "destination absent/empty/populated by a previous copy/with bystanders, spellings rel/./abs/trailing slash, -T, "
-                "--target-directory, --glob patterns selecting the same sources, both drivers: whole-sandbox snapshot vs an "
+                "--target-directory, --glob patterns selecting the same sources, both drivers, neutral options (-v, -f, --no-progress, "
+                "-w 0 = one worker per CPU) and runs confined to ONE usable CPU: whole-sandbox snapshot vs an "
                 "independent Python statement of cp's mapping rule and a frame check; non-trivial = >=3 entries; distinct by case")
     run_walker_r0(ctx, out)
     run_copies(ctx, out)
